@@ -167,7 +167,9 @@ func genC17(tier string, seed uint64) *simkit.Plan {
 			if r.Chance(0.35) {
 				op = "peer_add"
 			}
-			p.AddStep(Step{Op: op, At: pickMember(), Slot: slot})
+			// Ms: how long the fresh peer has been running (waiting for a leader, polling
+			// twice a second) when it is added
+			p.AddStep(Step{Op: op, At: pickMember(), Slot: slot, Ms: one(r, 0, 0, 100, 300, 420, 460, 480, 495, 700, 960)})
 			member[slot], up[slot] = true, true
 		case x < 62: // remove
 			slot := pickMember()
@@ -859,6 +861,9 @@ func (w *world) joinOp(s Step) {
 			}
 		}
 		synctest.Wait()
+		if s.Ms > 0 {
+			sleep(time.Duration(s.Ms) * time.Millisecond)
+		}
 	}
 	run.Op()
 	was := w.member[s.Slot]
